@@ -95,8 +95,8 @@ CALLEES = {
     "ABTI_mem_alloc_ythread_mempool_desc": ("acq", "ythread", "*{4}"),
     "ABTI_mem_alloc_nythread": ("acq", "task", "*{1}"),
     "ABTI_mem_free_thread": ("rel", "{2}", False),
-    "ABTI_ktable_set_unsafe": ("ktset", "*{2}", False, "{4}"),
-    "ABTI_ktable_set": ("ktset", "*{2}", True, "{4}"),
+    "ABTI_ktable_set_unsafe": ("ktset", "*{2}", False, "{4}", "{3}"),
+    "ABTI_ktable_set": ("ktset", "*{2}", True, "{4}", "{3}"),
     "ABTI_ktable_free": ("rel", "{2}", False),
     "ABTI_thread_init_pool": ("fallible",),        # unit creation + unit map; undone by the callee itself on failure
     "ABTI_thread_set_associated_pool": ("fallible",),
@@ -626,10 +626,15 @@ class Tr:
             self.emit("label", lset)
             self.emit("fallible", site, e)
             val = self.subst(cls[3], call, fbase)
+            tag = self.atom("key " + self.subst(cls[4], call, fbase))
             if val in self.rpaths:
                 # the element's destructor frees the stored value together with the key table
                 self.emit("br", ("cmp", "ne", e, 0), False, lend)
-                self.emit("give", self.ref(val), self.ref(dst))
+                self.emit("give", self.ref(val), self.ref(dst), tag)
+            elif is_null(call["inner"][5]) if len(call["inner"]) > 5 else False:
+                # the value under this key is overwritten by NULL: its destructor will not run any more
+                self.emit("br", ("cmp", "ne", e, 0), False, lend)
+                self.emit("ungive", self.ref(dst), tag)
             self.emit("label", lend)
         else:
             raise Unsupported("%s: class %s" % (self.name, kind))
@@ -1261,7 +1266,9 @@ def lean_instr(i):
     if i[0] == "mark":
         return ".mark %d" % i[1]
     if i[0] == "give":
-        return ".give %s %s" % (lean_ref(i[1]), lean_ref(i[2]))
+        return ".give %s %s %d" % (lean_ref(i[1]), lean_ref(i[2]), i[3])
+    if i[0] == "ungive":
+        return ".ungive %s %d" % (lean_ref(i[1]), i[2])
     if i[0] == "seti":
         return ".seti %s %s" % (lean_ref(i[1]), lean_int(i[2]))
     if i[0] == "copy":
